@@ -63,7 +63,24 @@ var placements = []placement{
 	{"after files of 2 and 5 bytes", []int{2, 5}, false},
 	{"after a 998-byte file", []int{998}, false},
 	{"after a 3-byte file, reader created before the file was added", []int{3}, true},
+	// base offsets at the widths a packed cache key or a narrowed integer might assume (stub files: no data is allocated)
+	{"after a 65535-byte file", []int{65535}, false},
+	{"after a 2 GiB file", []int{1<<31 - 1}, false},
+	{"after files of 3 bytes and 4 GiB", []int{3, 1 << 32}, false},
+	{"after files of 3 bytes and 8 GiB", []int{3, 1 << 33}, false},
 }
+
+// stubFile stands in for a huge preceding file: it only has a length.
+type stubFile struct {
+	name   string
+	length int
+	offset int
+}
+
+func (f *stubFile) Position(int) parsley.Position { return parsley.NilPosition }
+func (f *stubFile) Pos(p int) parsley.Pos         { return parsley.Pos(f.offset + p) }
+func (f *stubFile) Len() int                      { return f.length }
+func (f *stubFile) SetOffset(o int)               { f.offset = o }
 
 // place builds a file set with the preceding files and the file under test; it
 // returns the file, a reader on it and the expected base offset computed from
@@ -72,7 +89,11 @@ func place(pl placement, name string, content []byte) (*parsley.FileSet, *text.F
 	fs := parsley.NewFileSet()
 	base := 1
 	for i, l := range pl.preceding {
-		fs.AddFile(text.NewFile(fmt.Sprintf("pre%d", i), []byte(strings.Repeat("x", l))))
+		if l > 1<<20 {
+			fs.AddFile(&stubFile{name: fmt.Sprintf("pre%d", i), length: l})
+		} else {
+			fs.AddFile(text.NewFile(fmt.Sprintf("pre%d", i), []byte(strings.Repeat("x", l))))
+		}
 		base += l + 1
 	}
 	f := text.NewFile(name, content)
